@@ -36,7 +36,7 @@ def _vacuity(paths):
             for l in f:
                 c = json.loads(l)
                 ops.add(c["op"])
-                src, pr, ov = c["cls"].split("/")
+                src, pr, ov = c["cls"].split("/")[:3]
                 probs.add(pr); ovfs.add(ov); srcs.add(src)
     missing = (OPS - ops) | (PROBLEMS - probs) | ({"constrain", "reject"} - ovfs) | ({"m", "c", "mc", "-", "*"} - srcs)
     if missing:
